@@ -245,6 +245,15 @@ def _handle_probe(cut, impl_line, model_line):
 
 def _judge(ctx, go, model, hist, what):
     """minimise a disagreeing history, ask the independent reference, record the violation"""
+    # The histories of this family are sequential and the answers deterministic functions of the lines: a
+    # difference seen in the campaign is re-run alone before anything is made of it.  One that does not show
+    # again in 5 runs of the same lines came from the harness (an answer `hang` from a watchdog that expired
+    # while the whole machine stood still - DESIGN 7.2), not from the code: it is recorded, not reported.
+    if not any(_differs(ctx, go, model, hist, tag="re%d" % k) for k in range(5)):
+        ctx.notes.append("%s: a difference seen in the campaign did not show again in 5 runs of the same "
+                         "history (%d lines); not reported" % (what, len(hist)))
+        ctx.extra.setdefault("transient_differences", []).append(dict(where=what, lines=hist[:40]))
+        return False
     small = ctx.ddmin(hist, lambda ls: _differs(ctx, go, model, ls), keep_prefix=0)
     ops = ctx.path("min.ops")
     open(ops, "w").write("\n".join(small) + "\n")
